@@ -5,7 +5,7 @@ PK = dict(harness="h_packet.c", units=["src/hamm.c"], flags=["--no-undefined-shi
          
           stubs=["struct caption carved out of vbi_decoder (include guard CC_H + dummy)", "vbi_send_event: log", "cache get/put/unref: stub",
                  "vbi_cni_table: empty", "8/30 + VPS decoders: stub FALSE", "_vbi_strlcpy: local copy"],
-          unwindset={"bytes_eq.0": 5000, "flip.0": 50, "is_ham8.0": 20, "ref_unham8.0": 20, "ref_ham24.0": 30, "ref_ham24.1": 30, "ref_ham24.2": 30, "ref_ham24.3": 30})
+          unwindset={"bytes_eq.0": 5000, "zero_except.0": 5000, "put_ham8.0": 50, "put_ham24.0": 20, "flip.0": 50, "is_ham8.0": 20, "ref_unham8.0": 20, "ref_ham24.0": 30, "ref_ham24.1": 30, "ref_ham24.2": 30, "ref_ham24.3": 30})
 
 
 def packet_obs():
@@ -17,9 +17,10 @@ def packet_obs():
     o["pagelink_any"] = Ob("pagelink_any", func="h_pagelink_untouched", unwind=50, vin_size=64, reach=["end", "rejected"],
         desc="unham_page_link on 6 arbitrary bytes: accepted iff every byte is within distance 1 of a code word; rejected => output untouched; accepted => pgno in 0x100..0x8FF, subno masked",
         encodes=["unham_page_link"], bounds="none", timeout=300, **PK)
-    o["mot"] = Ob("parse_mot", func="h_mot", unwind=50, vin_size=64,
+    o["mot"] = Ob("parse_mot", func="h_mot", unwind=260, vin_size=64, reach=["end"],
         desc="parse_mot on an arbitrary 40-byte row, every packet number 0..31, arbitrary magazine state in an exact-size object: no access outside; a single bit error in any "
-             "byte that was a code word leaves exactly the same magazine state as the clean row",
+             "byte that was a code word leaves exactly the same magazine state as the clean row; EXACT result for the look-up tables (entry i stored at its page per EN 300 706 10.6 "
+             "iff both nibbles correctable, nothing else written: catches writes that stay inside the struct)",
         encodes=["parse_mot", "vbi_unham8"], bounds="none within one packet; packet number enumerated by the runner (0..31 thorough; one per switch arm quick)",
         grid=[dict(PKTSEL=k) for k in range(0, 32)], quick_grid=[dict(PKTSEL=k) for k in (1, 8, 9, 14, 15, 19, 20, 21, 22, 23, 24)], timeout=600, mem_gb=4, **PK)
     o["pop"] = Ob("parse_pop", func="h_pop", unwind=50, vin_size=128, reach=["end", "clean"],
@@ -98,4 +99,8 @@ def packet_obs():
     o["addr_error"] = Ob("ttx_addr_error", func="h_ttx_addr_error", unwind=50, vin_size=64,
         desc="a packet whose address bytes are uncorrectable is rejected and changes nothing (page in progress, X/26 bookkeeping, no cache store, no event)",
         encodes=["vbi_decode_teletext"], bounds="none", timeout=300, mem_gb=4, **PK)
+    groups = {'pagelink': ['G_NONE'], 'pagelink_any': ['G_NONE'], 'mot': ['G_MAG'], 'pop': ['G_CP'], 'x27': ['G_CP'], 'x27_links': ['G_CP'], 'ait': ['G_CP'], 'lop_parity': ['G_CP', 'G_RP'], 'lop_parity_x26': ['G_CP', 'G_RP'], 'x2829': ['G_DEC', 'G_CP'], 'btt': ['G_DEC'], 'mpt': ['G_DEC'], 'mpt_ex': ['G_DEC'], 'mip': ['G_DEC', 'G_CP'], 'drcs': ['G_CPD'], 'rows': ['G_DEC'], 'header': ['G_DEC'], 'header_badpage': ['G_DEC'], 'addr_error': ['G_DEC', 'G_DECCOPY']}
+    for k, gs in groups.items():
+        for g in gs:
+            o[k].defines[g] = None      # -DG_xxx: compile in only the static objects this obligation uses
     return o
